@@ -421,6 +421,21 @@ def run(ctx):
             return
 
 
+_run_core = run
+
+
+def run(ctx):
+    _run_core(ctx)
+    if ctx.n_new() == 0 and ctx.driver_ok:
+        from harness.common import run_demo
+        if ctx.n_new() == 0:
+            run_demo(ctx, 'demo_tr4.py', [1 + ctx.seed], 'c04-code-vs-generated-vs-model-4',
+                     'operation-selection cascade of learn_spn vs generated definition vs selectOp', env_extra=dict(DEMO_SECTIONS='a'))
+
+
 def replay(rep):
+    if rep['replay'].get('kind') == 'demo':
+        from harness.common import replay_demo
+        return replay_demo(rep['replay'])
     print('C04 replays re-run the learner: use VERIF_SEED and the recorded configuration', {k: v for k, v in rep['replay'].items() if k != 'data'})
     return True
